@@ -274,7 +274,13 @@ def run_case(case, res):
         with case_deadline(30):
             random.seed(case["rand_seed"])
             try:
-                t = cls.build_random_tree(sd)
+                if case["rand_seed"] % 3 == 0:
+                    from nutree.tree_generator import build_random_tree as _brt
+
+                    t = _brt(tree_class=cls, structure_def=sd)  # the module-level entry point
+                    res.count("module_level_entry")
+                else:
+                    t = cls.build_random_tree(sd)
             except Exception:
                 res.case(case, nontrivial=False)
                 res.violation(case, "build_random_tree raised: " + short_tb(), structure_def=describe(sd))
